@@ -924,6 +924,8 @@ class Engine(object):
                         return mk_py(('excclass', attr))
                     return mk_py(('class', '%s:%s' % (module, attr)))
                 return mk_py(('func', '%s:%s' % (module, attr)))
+            if ('%s:%s' % (module, attr)) in self.spec.consts:
+                return self.const_sv(self.spec.consts['%s:%s' % (module, attr)], node)
             if attr in mi.consts:
                 return self.const_sv(mi.consts[attr], node)
             if attr in mi.imports:
